@@ -331,8 +331,26 @@ impl Prop for C01 {
     fn stack_size() -> usize {
         2 << 20
     }
-    fn shrink(_s: &Scn) -> Vec<Scn> {
-        vec![]
+    /// The first shrink step replaces the whole enumeration by the one failing input (recorded
+    /// by the last failing call on this OS thread); then octets are cut from the end and the front.
+    fn shrink(s: &Scn) -> Vec<Scn> {
+        let mut out = vec![];
+        match &s.only {
+            None => {
+                if let Some((hex, tcp, _)) = FAILING_INPUTS.lock().unwrap().get(&(s.msg, s.cfg)).cloned() {
+                    out.push(Scn { only: Some((hex, tcp)), pairs: 0, ..s.clone() });
+                }
+            }
+            Some((hex, tcp)) => {
+                let m = crate::util::unhex(hex);
+                for cut in [m.len() / 2, m.len().saturating_sub(16), m.len().saturating_sub(1)] {
+                    if cut >= 12 && cut < m.len() {
+                        out.push(Scn { only: Some((crate::util::hex(&m[..cut]), *tcp)), ..s.clone() });
+                    }
+                }
+            }
+        }
+        out
     }
     fn nontrivial(_s: &Scn, _r: &ExecRecord) -> bool {
         true
@@ -379,7 +397,11 @@ impl Prop for C01 {
     }
 }
 
+/// First unlisted failing input per (message, configuration), for the minimiser.
+static FAILING_INPUTS: std::sync::Mutex<std::collections::BTreeMap<(usize, usize), (String, bool, bool)>> = std::sync::Mutex::new(std::collections::BTreeMap::new());
+
 struct Harness {
+    msg: usize,
     cfg: usize,
     server: Server<Cat>,
     buf: Vec<u8>,
@@ -407,6 +429,14 @@ impl Harness {
                 let v = crate::util::Violation { class: site.clone(), detail: format!("handle_message unwound ({m}) on a {}-octet request over {} [{what}], configuration {}; request hex {}", msg.len(), if tcp { "TCP" } else { "UDP" }, self.cfg, crate::util::hex(msg)) };
                 // a listed known finding must not mask a different violation in the same execution
                 let listed = crate::driver::known().matches(C01::ID, &<C01 as Prop>::signature(&v, &Scn { msg: 0, cfg: 0, pair_seed: 0, pairs: 0, only: None })).is_some();
+                {
+                    // remember the input: an unlisted one replaces a listed one, never the reverse
+                    let mut f = FAILING_INPUTS.lock().unwrap();
+                    let e = f.get(&(self.msg, self.cfg)).cloned();
+                    if e.is_none() || (!listed && e.map(|x| x.2).unwrap_or(false)) {
+                        f.insert((self.msg, self.cfg), (crate::util::hex(msg), tcp, listed));
+                    }
+                }
                 if listed {
                     simrt::probe("c01_known_finding_hits");
                     viol(&v.class, v.detail);
@@ -456,7 +486,7 @@ fn apply_fault(base: &[u8], r: &mut SplitMix) -> Vec<u8> {
 
 fn run(scn: &Scn) {
     simrt::start(world_cfg(13, FaultCfg::none()));
-    let mut h = Harness { cfg: scn.cfg, server: make_server(scn.cfg), buf: vec![0u8; 65535], sites: vec![], unlisted_recorded: false };
+    let mut h = Harness { msg: scn.msg, cfg: scn.cfg, server: make_server(scn.cfg), buf: vec![0u8; 65535], sites: vec![], unlisted_recorded: false };
     if let Some((hex, tcp)) = &scn.only {
         h.call(&crate::util::unhex(hex), *tcp, "replay of one input");
         simrt::finish();
